@@ -452,6 +452,48 @@ func cmdReplayVerdict(args []string) error {
 				fromDoc = res.BasicRule == nil
 			})
 			check("Engine.MatchRequest", p, sp, lists, c.Web, c.Winners, c.Cands, got, fromDoc, pv)
+			if rep == 0 {
+				// the same bag with the referrer under a private public suffix (user.github.io, $domain=github.io) and
+				// patterns too short for the shortcut index ("||h.t*"), so that the rules are filed under their $domain:
+				// nothing the verdict depends on has changed
+				subst := func(t string) string {
+					return strings.ReplaceAll(strings.ReplaceAll(t, "src.test", "github.io"), "||h.test^", "||h.t*")
+				}
+				var l2 [][]string
+				for _, l := range lists {
+					var x []string
+					for _, t := range l {
+						x = append(x, subst(t))
+					}
+					l2 = append(l2, x)
+				}
+				st2, err := buildStorage(l2)
+				if err != nil {
+					return err
+				}
+				var got2 *rules.NetworkRule
+				pv2 := safeCall(func() {
+					q := rules.NewRequest(verdictURL, "http://user.github.io/page", rules.TypeDocument)
+					q.SortedClientTags, q.ClientName, q.DNSType = []string{"t1"}, "phone", dns.TypeA
+					res := urlfilter.NewEngine(st2).MatchRequest(q)
+					got2 = res.GetBasicResult()
+					fromDoc = res.BasicRule == nil
+				})
+				if got2 != nil && !fromDoc {
+					// back to the pool's own rule object, for the winner checks
+					var back *rules.NetworkRule
+					for _, i := range c.Bag {
+						if subst(env.mainText[i-1]) == got2.RuleText {
+							back = env.mainRule[i-1]
+						}
+					}
+					if back == nil {
+						back = got2
+					}
+					got2 = back
+				}
+				check("Engine.MatchRequest(referrer under a private suffix, rules filed by $domain)", p, sp, l2, c.Web, c.Winners, c.Cands, got2, fromDoc, pv2)
+			}
 			if ns == 0 {
 				pv = safeCall(func() { got, _ = urlfilter.NewNetworkEngine(st).Match(newVerdictReq()) })
 				check("NetworkEngine.Match", p, sp, lists, c.Web, c.Winners, c.Cands, got, false, pv)
